@@ -176,6 +176,27 @@ def run(ctx):
         break
     # no message builder of the NTLM layer / x224 request touches a password: covered by the census above (no other reader)
 
+    # ---- R17.6 the mode a connection runs in is what the caller configured: each security-relevant Connector option is stored by its own builder
+    # method and by no other (builder calls commute: `.blank_creds(true).set_restricted_admin_mode(false)` must leave blank_creds set) ----------
+    OWNER = {'blank_creds': 'blank_creds', 'restricted_admin_mode': 'set_restricted_admin_mode', 'use_nla': 'use_nla', 'password': 'credentials',
+             'domain': 'credentials', 'username': 'credentials', 'password_hash': 'set_password_hash', 'auto_logon': 'auto_logon',
+             'check_certificate': 'check_certificate'}
+    writers_of = {}
+    for k_, b_ in P.bodies.items():
+        if not k_.startswith('core::client::Connector::') or b_.kind == 'Closure':
+            continue
+        for bi in range(b_.n):
+            if b_.blocks[bi]['cleanup']:
+                continue
+            for stt in b_.blocks[bi]['stmts']:
+                if stt['s'] == 'assign' and stt['place']['p'] and stt['place']['p'][-1]['k'] == 'field' \
+                        and (stt['place']['p'][-1].get('owner') == 'core::client::Connector' or stt['place']['l'] == 1):
+                    writers_of.setdefault(stt['place']['p'][-1]['name'], set()).add(k_.rsplit('::', 1)[-1])
+    for fld, own in sorted(OWNER.items()):
+        ctx.check(writers_of.get(fld, set()) == {own}, 'R17.6', 'option_writer:%s' % fld, 'Connector::%s is set by %s() only' % (fld, own), '',
+                  'Connector::%s is stored by %s (expected only %s()): configuring one option silently changes another, so the credentials sent no longer '
+                  'depend only on the mode the caller chose' % (fld, sorted(writers_of.get(fld, set())), own))
+
     # ---- R17.2 restricted admin ---------------------------------------------------------------------------------------
     n_r = n_n = 0
     for path, st in feasible_paths(cc, P, limit=100000):
@@ -260,6 +281,28 @@ def run(ctx):
         ps = [[o.param for o in origins(cp, a) if o.kind == 'param'] for a in c.args]
         ctx.check(ps == [[1], [3], [2]], 'R17.2', 'connection_pdu:args', 'x224_connection_pdu(neg_type, mode, protocols) -> rdp_neg_req(neg_type, protocols, mode)', c.where(),
                   'x224_connection_pdu passes parameters %s to rdp_neg_req(neg_type, result, flag)' % ps)
+    # the mode announced in the negotiation request is the caller's, whatever else is requested: write_connection_request and
+    # x224_connection_pdu hand their mode parameter on unchanged (no filter on the offered protocols, no default)
+    def pure_param(e, param):
+        nodes = list(walk(e))
+        if not any(n == ('param', param) for n in nodes):
+            return False
+        for n in nodes:
+            if n[0] in ('bin', 'un', 'unknown', 'mutated', 'index', 'upd') or (n[0] == 'param' and n[1] != param) or n[0] in ('call', 'closure'):
+                return False
+        return True
+    for fn, callee, argi, parami in (('core::x224::Client::<S>::write_connection_request', 'core::x224::x224_connection_pdu', 1, 3),
+                                     ('core::x224::x224_connection_pdu', 'core::x224::rdp_neg_req', 2, 2)):
+        fb = ctx.body(fn)
+        n_c = 0
+        for path, st in feasible_paths(fb, P, limit=20000):
+            for ev in path_calls(st, [callee]):
+                n_c += 1
+                ctx.check(pure_param(resolve(st, ev[2][argi]), parami), 'R17.2', 'mode_passthrough:%s' % fn.rsplit('::', 1)[-1],
+                          '%s hands its mode parameter to %s unchanged' % (fn.rsplit('::', 1)[-1], callee.rsplit('::', 1)[-1]), fb.where(),
+                          '%s does not pass the requested mode through unchanged: the restricted-admin announcement would depend on something else than the '
+                          'mode the caller chose (e.g. dropped when CredSSP is not offered) while the payloads are still emptied' % fn)
+        ctx.floor('R17.2', 'calls of %s in %s' % (callee.rsplit('::', 1)[-1], fn.rsplit('::', 1)[-1]), n_c, 1)
     # cssp_connect: credentials emptied exactly under the flag, and in the right positions
     seen = set()
     for path, st in feasible_paths(cs, P, limit=200000):
